@@ -7,6 +7,7 @@
 #include "vf.h"
 #include "aslx.h"
 #include "refjson.h"
+#include <set>
 using namespace asl;
 using vf::fmt;
 
@@ -47,7 +48,7 @@ static std::string exactKey(XdlParser& p) {
 	for (int i = 0; i < p._props.length(); i++) s += vf::hex(*p._props[i], p._props[i].length()) + ";";
 	return s;
 }
-static char lenClass(int n) { return n == 0 ? '0' : n <= 6 ? 'a' : n == 7 ? '7' : n == 8 ? '8' : n <= 14 ? 'b' : n == 15 ? 'f' : 'g'; }
+static char lenClass(int n) { return n <= 17 ? (char)('A' + n) : 'z'; } // exact up to the last inline/heap boundary (Var 7/8, String 15/16), one class beyond
 static std::string abstractKey(XdlParser& p, const rj::Ref& r) {
 	int st = p._state;
 	std::string s = fmt("s%d p%d c%d u%d|", st, (st == S_ESCAPE || st == S_UNICODECHAR) ? (int)p._prevState : -1, (int)p._inComment, p._unicodeCount);
@@ -84,10 +85,12 @@ struct JsonSys {
 	bool abstract; int maxNest, collectMaxLen; std::string label;
 	XdlParser* p; rj::Ref ref; std::string text; int nsym;
 	FILE* pyf; char iobuf[1 << 16];
-	JsonSys(bool a, int nest, int collect, const std::string& l) : abstract(a), maxNest(nest), collectMaxLen(collect), label(l), p(0), nsym(0), pyf(0) {}
+	FILE* absf; char iobuf2[1 << 16]; int absDepth; // abstraction check: abstract keys of all states up to absDepth, from both passes
+	JsonSys(bool a, int nest, int collect, const std::string& l) : abstract(a), maxNest(nest), collectMaxLen(collect), label(l), p(0), nsym(0), pyf(0), absf(0), absDepth(0) {}
 	int nops() { return NSYM; }
 	void reset() {
 		delete p; p = new XdlParser(); ref.reset(); std::string().swap(text); nsym = 0;
+		if (!absf && absDepth && vf::in_worker()) { absf = fopen((vf::scratch_dir() + fmt("/abs.%s.%d.%d", label.c_str(), vf::worker_id(), (int)getpid())).c_str(), "a"); if (absf) setvbuf(absf, iobuf2, _IOFBF, sizeof iobuf2); }
 		if (!pyf && vf::in_worker()) { pyf = fopen((vf::scratch_dir() + fmt("/py.%s.%d.%d", label.c_str(), vf::worker_id(), (int)getpid())).c_str(), "a"); if (pyf) setvbuf(pyf, iobuf, _IOFBF, sizeof iobuf); }
 	}
 	bool enabled(int op) {
@@ -139,6 +142,10 @@ struct JsonSys {
 		}
 		if ((int)text.size() <= collectMaxLen) {
 			if (pyf) { fprintf(pyf, "%s\t%s\n", vf::hex(text).c_str(), verdict.c_str()); vf::add(C_PYLINES); }
+		}
+		if (absf && nsym <= absDepth) {
+			int nest = 0; for (int i = 0; i < p->_context.length(); i++) if (p->_context[i] == X_ARRAY || p->_context[i] == X_OBJECT) nest++;
+			if (nest <= 3) { vf::H128 h = vf::hash128(abstractKey(*p, ref)); fprintf(absf, "%d %016llx%016llx\n", nsym, (unsigned long long)h.a, (unsigned long long)h.b); if (getenv("C06_ABSDEBUG")) { FILE* df = fopen(getenv("C06_ABSDEBUG"), "a"); if (df) { fprintf(df, "%s\t%016llx%016llx\t%s\t%s\n", label.c_str(), (unsigned long long)h.a, (unsigned long long)h.b, vf::hex(text).c_str(), abstractKey(*p, ref).c_str()); fclose(df); } } }
 		}
 		return abstract ? abstractKey(*p, ref) : E + "|R" + ref.stateKey();
 	}
@@ -206,10 +213,21 @@ int main(int argc, char** argv) {
 		});
 		return vf::finish();
 	}
+	A.absDepth = T ? 5 : 4; B.absDepth = 99; // every abstract state the exact search reaches must be reached by the abstracted search at some depth
 	vf::BfsResult ra = runPass(A, T ? 5 : 4, "pass_A_exact");
 	vf::BfsResult rb = runPass(B, T ? 10 : 8, "pass_B_abstract");
 	vf::add(cS, ra.states + rb.states); vf::add(cT, ra.transitions + rb.transitions); vf::add(cTr, ra.traces + rb.traces);
 	vf::parallel(1, [&](uint64_t) { deepCases(); });
+	// abstraction check: up to pass A's depth, the abstract states reached through the exact search and through the abstracted search must coincide
+	{
+		std::set<std::string> sa, sb; char line[128];
+		std::vector<std::string> fa = vf::list_scratch("abs.exact."), fb = vf::list_scratch("abs.abstract.");
+		for (size_t i = 0; i < fa.size(); i++) { FILE* f = fopen(fa[i].c_str(), "r"); while (f && fgets(line, sizeof line, f)) sa.insert(strchr(line, ' ') ? strchr(line, ' ') + 1 : line); if (f) fclose(f); }
+		for (size_t i = 0; i < fb.size(); i++) { FILE* f = fopen(fb[i].c_str(), "r"); while (f && fgets(line, sizeof line, f)) sb.insert(strchr(line, ' ') ? strchr(line, ' ') + 1 : line); if (f) fclose(f); }
+		size_t onlyA = 0, onlyB = 0; for (std::set<std::string>::iterator it = sa.begin(); it != sa.end(); ++it) if (!sb.count(*it)) onlyA++; for (std::set<std::string>::iterator it = sb.begin(); it != sb.end(); ++it) if (!sa.count(*it)) onlyB++;
+		vf::setinfo("abstraction_check", fmt("{\"depth\": %d, \"abstract_states_via_exact_search\": %llu, \"abstract_states_via_abstracted_search\": %llu, \"only_exact\": %llu, \"only_abstracted\": %llu}", A.absDepth, (unsigned long long)sa.size(), (unsigned long long)sb.size(), (unsigned long long)onlyA, (unsigned long long)onlyB));
+		if (vf::nviolations() == 0 && onlyA) { fprintf(stderr, "HARNESS ERROR: abstraction of pass B is not reachability-preserving up to depth %d (%llu abstract states reached by the exact search are never reached by the abstracted search)\n", A.absDepth, (unsigned long long)onlyA); vf::finish(); return 2; }
+	}
 	// cross-check of the reference recogniser against python's json on every collected text
 	std::vector<std::string> files = vf::list_scratch("py.");
 	if (!files.empty()) {
